@@ -292,6 +292,9 @@ pub fn okerr_owners(pred: &Pred, act_ok: bool, root_leaf: Option<&'static str>) 
             Some(Why::Overdraft) => vec!["C05"],
             Some(Why::RegistryReject) => vec!["C11"],
             Some(Why::Unauthorized) => vec!["C12"],
+            // "a successful migration runs the migrate entry point of the new code": there is none
+            Some(Why::NoEntryPoint(Kind::Migrate)) => vec!["C12"],
+            Some(Why::NoEntryPoint(Kind::Reply)) => vec!["C03", "C02"],
             _ => vec!["C02"],
         }
     } else {
